@@ -142,7 +142,11 @@ class C13(Monitor):
                     other = rnd.choice(ids)
                     rid = (other.upper() if other.upper() != other else other.title()) if isinstance(other, str) and other \
                         else (str(other) if isinstance(other, int) else "ID%d" % n)
-                steps.append(["api", "addExcludeRegion", payload_of(_shape, rid), anon])
+                _pl = payload_of(_shape, rid)
+                if rnd.random() < 0.1:
+                    # a coordinate left out of the request: it defaults to 0 (the list shows it all the same)
+                    _pl.pop(rnd.choice([k for k in _pl if k not in ("type", "id")]))
+                steps.append(["api", "addExcludeRegion", _pl, anon])
                 if rid is not None and not anon:
                     ids.append(rid)
                     shape_of.setdefault(rid, _shape)
